@@ -59,13 +59,17 @@ CHECKS = {
          "Per seeded binary (clean or with 1-2 storage faults) the scripted consumer's answer is ENUMERATED over every callback position k in {initialize, header, each instruction, finalize, one past} x {Stop, Error(unique tag)}, plus random multi-deviation scripts and the real Loader wrapped in a logging consumer; the callback log and the returned ParseState are checked against the protocol automaton, the all-Continue baseline and the reference acceptor.",
          "A binary on which the all-Continue parse panics is C04's finding and skipped; acceptance itself is C03's question.",
          SIM_TECH + "; cancellation injected at every callback position", "§5 C14"),
+ "C20": ("fault_enumeration",
+         "The REAL rspirv-dis executable (built from /repo's working tree by ./check) is executed on real files: empty, random bytes, random words behind a valid header, producer modules clean or with 1-3 storage faults; a share of the runs executes it under strace with EINTR injected into the 1st or 2nd read(2) of the input file - both read calls the program issues - so the syscall-level fault positions are enumerated; exit status, signal, stderr and byte-exact stdout are compared with the library result computed in process.",
+         "Expected stdout comes from the same /repo library (load_bytes + Disassemble / Display); strace availability is probed per run and skipped runs are counted; only single-shot EINTR injection.",
+         SIM_TECH + "; process-level simulation with syscall fault injection (strace) - the only lane with real I/O", "§5 C20"),
  "C19": ("exploration",
          "Seeded search over append / fetch_or_append / lookup histories on sr::Storage with adversarial equality relations (NaN-like, non-transitive) and an equality that unwinds mid-scan as the injected fault, refined step by step against a Vec model with a token-stability invariant after every step.",
          "Trusts the Vec reference model; equality relations are symmetric by construction; after an unwinding comparison only the weak post-condition is demanded.",
          SIM_TECH, "§5 C19"),
 }
 
-PLANNED = ["C20"]
+PLANNED = []
 
 def main():
     checks = []
